@@ -267,7 +267,7 @@ async def settle(n=12):
 
 
 async def run_scenario(loop, sc, classes):
-    api_versions = [(int(k), v[0], v[1]) for k, v in sc["profile"].items()]
+    api_versions = [(int(k), v[0], v[1]) for k, v in sc["profile"].items()] + [(0, 0, 7)]   # + Produce
     client = AIOKafkaClient(bootstrap_servers="mem:9092", request_timeout_ms=10**9)
     conn = AIOKafkaConnection("mem", 9092, request_timeout_ms=10**9, on_close=client._on_connection_closed)
     ctask = loop.create_task(conn.connect())
